@@ -25,7 +25,7 @@ def plans(prop, tier):
              prof(5, nops=1100, pool=700, maxlen=6, alpha=8, pput=70, prem=8, pget=20, pscan=0, piscan=0, pmem=0, pprobe=0, dumpevery=0, psweep=12),
              prof(6, nops=n + 400, pool=160, maxlen=3, alpha=8, mode="deep", pput=65, prem=12, pget=23, pscan=0, piscan=0, pmem=0, pprobe=0, dumpevery=0, psweep=15),
              prof(4, nops=n, pool=25, maxlen=9, alpha=2, pput=40, prem=40, pget=20, pscan=0, piscan=0, pmem=0, pprobe=0, dumpevery=0, uniq=50)]
-        M = ["MC_Tree_struct7.cfg"] if q else ["MC_Tree_struct7.cfg", "MC_Tree_struct8L.cfg", "MC_Tree_struct9S.cfg"]
+        M = ["MC_Tree_struct7.cfg", "MC_Tree_struct9S.cfg"] if q else ["MC_Tree_struct7.cfg", "MC_Tree_struct8L.cfg", "MC_Tree_struct9S.cfg"]
     elif prop == "C03":
         on = ["C03"]
         P = [prof(11, nops=n, pool=70, maxlen=3, alpha=3, pput=35, prem=15, pget=0, pscan=50, piscan=0, pmem=0, pprobe=0, dumpevery=0),
@@ -97,7 +97,11 @@ def main(prop, tier):
                         "projection functions trusted: canonical dump through node accessors, value id = first 4 bytes of the stored value"]
     on, P, M = plans(prop, tier)
     for cfg in M:
-        seqtrace.model_check(chk, cfg, "exhaustive sequential model " + cfg)
+        if cfg == "MC_Tree_struct9S.cfg":
+            # 12 single-layer keys at fan-out 3 (interior splits, new interior root, collapse): too many orders to enumerate, random walks instead
+            seqtrace.model_check(chk, "MC_Tree_sim12.cfg", "random walks of the sequential model, 12 single-layer keys (interior split / collapse)", workers=8, simulate=1500 if tier == "quick" else 12000, depth=45, timeout=1500)
+            continue
+        seqtrace.model_check(chk, cfg, "exhaustive sequential model " + cfg, timeout=1500)
     # second seed set in thorough tier: same profiles, later seeds
     if tier != "quick":
         P2 = []
